@@ -107,7 +107,7 @@ EXTRA = {
  "C09": "Operations also include RemoveOldestDatum and Store.Gc; 150/6000 burst sequences over a 96-tuple universe (grow to <=96, shrink to <=8).",
  "C10": "Each store is judged over 4 GC passes with store mutations (older re-stamps, new marks) between passes 2 and 3; timestamps include two beyond the range of a time.Duration (300 and 335 years back). Also a text metric re-set to the same value (a datum's time must be the instant of its last update) and idle times within a second of the expiry incl. fractional expiries, judged when determinate within the pass bracket.",
  "C11": "Sizes now 6 A/B + 6 C runs (quick), 30 + 16 (thorough). A/B runs add a 4th program whose expiry clock is driven by settime (key written stamped 1970, then stamped now+10h: must end present with 1 or 2) and a new label set every 25 lines; workload C: every line creates a label set, a third of the lines stalled, reloads back to back, conservation per key; one forced schedule (Store.Gc between a line's dload and inc) documents known finding C11-e, whose classifier needs 'in the store at the line's dload, gone at its end' (instruction hook). Every run is guarded by the stall oracle (goroutine dump: lock waits of >= 2 minutes). Two more export loops talk to a client that goes away at the k-th write.",
- "C12": "Plus cancellation at every k-th look the handler takes at the request context, and a concurrent phase (6 exporters x 400/4000 clean, cancelled and failing attempts against 3 writers x 20k/200k write-locking updates incl. GC), run once on a clean store and once per kind of unrepresentable item, judged by the stall oracle.",
+ "C12": "Plus cancellation at every k-th look the handler takes at the request context, and a concurrent phase (6 exporters x 400/4000 clean, cancelled and failing attempts against 3 writers x 20k/200k write-locking updates incl. GC), run once on a clean store and once per kind of unrepresentable item, judged by the stall oracle; and a real server (debug and info endpoints on) with a client that stops reading a large /varz response: a write-locking update of that metric must complete (stall oracle).",
  "C13": "Plus: a label key literally named prog; pairs of label sets differing only in where a separator-like character sits; a second scrape with the same exporter after every value changed while its timestamp stayed the same; a concurrent phase (2 x 200/4000 scrapes while 2 mutators remove and re-create label sets; a label set no mutation of which overlaps the scrape on the shared logical clock must be listed exactly once with its value; no series twice; the scrape succeeds). In every fifth store the exporter's own context is cancelled before the second scrape.",
  "C14": "13 versions now (also: kind changed on a later declaration, kind clash between two declarations of the program itself). Every third history runs with -omit_metric_source, every fourth with runtime-error logging; versions add a histogram and edit its boundaries (directed histories), with the oracle that a histogram's buckets hold exactly its count.",
  "C15": "Plus 6k/300k generation runs: reader A goes through 2-4 generations (Finish after each, then reused, as the file streams do at truncation) while a second reader created after A's first Finish interleaves its reads. The alphabets include NUL.",
